@@ -1,0 +1,14 @@
+//go:build verif
+
+package outbox
+
+import (
+	"context"
+
+	"github.com/jdillenkofer/pithos/internal/storage/metadatapart/partstore"
+)
+
+// ProcessOnce runs one pass of the outbox worker (verification harness only).
+func ProcessOnce(ctx context.Context, ps partstore.PartStore) {
+	ps.(*outboxPartStore).maybeProcessOutboxEntries(ctx)
+}
